@@ -127,6 +127,23 @@ def tasks_c15(tier, seed):
     return ts
 
 
+ST_SCENS = ["ST1", "ST2", "ST3"]
+
+
+def tasks_c11(tier, seed):
+    ts = seq("c11", tier, shards=16)
+    for p in ST_SCENS:
+        if tier == "quick":
+            ts += explore(p + "-mock", "", 2, timeout="100s")
+            ts += explore(p + "-badger", "", 2, shards=4 if p == "ST1" else 2, timeout="100s")
+            ts += explore(p + "-badger-prefix", "", 1, timeout="100s")
+        else:
+            ts += explore(p + "-mock", "", -1, shards=4, timeout="30m")
+            ts += explore(p + "-badger", "", 3, shards=8, timeout="30m")
+            ts += explore(p + "-badger-prefix", "", 3, shards=8, timeout="30m")
+    return ts
+
+
 def tasks_c16(tier, seed):
     """Every schedule explored here runs under the race detector with the scheduler's own hand-offs hidden (DESIGN.md 2.3)."""
     ts = []
@@ -147,7 +164,13 @@ def tasks_c16(tier, seed):
 
 
 def STORE_RACE_TASKS(tier):
-    return []
+    ts = []
+    b = 1 if tier == "quick" else 2
+    to = "100s" if tier == "quick" else "30m"
+    for p in ST_SCENS:
+        ts += explore(p + "-mock", "", b, race=True, timeout=to)
+        ts += explore(p + "-badger-prefix", "", b, race=True, shards=2, timeout=to)
+    return ts
 
 
 def tasks_c09(tier, seed):
@@ -188,6 +211,8 @@ PLANS = {
     "C16": {"tasks": tasks_c16, "level": "model_checking",
             "assumptions": ["Go race detector (happens-before, bounded access history) on every explored schedule; scheduler hand-offs are invisible to it (RaceDisable) and shim primitives re-create exactly the edges of the real ones",
                             "client programs are the enumerated scenarios; they only make calls the documentation permits"]},
+    "C11": {"tasks": tasks_c11, "level": "model_checking",
+            "assumptions": ["a BadgerDB call made by a controlled thread is one atomic step (BadgerDB itself is assumed linearizable)", "keylock and mockstore's RWMutex are scheduler objects"]},
     "C03": {"tasks": tasks_c03, "level": "model_checking",
             "assumptions": ["Shutdown is called from outside callbacks", "envnats models the connection"]},
 }
@@ -221,6 +246,9 @@ MANIFEST_TEXT = {
     "C08": {"engine": "seq", "technique": "bounded-exhaustive enumeration of event-call sequences x apply handlers x listener placements x resource types with a global-log reference model",
             "level": "Every sequence of <=3 (4 thorough) event calls over 13 actions in request handlers and With callbacks, with 4 apply-handler modes, 5 listener placements and 3 resource types; one global log of apply/publish/listener steps is compared with a reference log.",
             "note": "Cross-callback ordering on the connection follows from C02 (per-group order) and program order checked here."},
+    "C11": {"engine": E1, "technique": "bounded-exhaustive operation histories against a map model + stateless model checking of 2-3 contending threads with a porcupine linearizability check on every execution",
+            "level": "Sequential: every well-formed history up to the depth bound for mockstore and four badgerstore configurations, compared step by step with a Go map and the expected callback list. Concurrent: every interleaving (preemption bound 2, 3 thorough) of three small transaction programs on colliding ids; each execution's call/return history is checked with porcupine against a per-id register model, plus a lock-exclusion monitor, callback thread/count/chain checks and the final content.",
+            "note": "BadgerDB internals run uninstrumented; binary-marshalled value types are not exercised (see DESIGN.md)."},
     "C15": {"engine": E1, "technique": "stateless model checking of the implementation with a virtual clock: preemption-bounded DFS over interleavings of query requests, expiry and callbacks",
             "level": "Every interleaving (up to the bound) of a query event with 0-2 requesters (valid, empty, missing and malformed queries), every callback behaviour, subscription failure, a concurrent callback of the same group and a chain of three events; the timer fires at any point; responses, nil-call count/order, group serialisation and released resources are checked on every execution.",
             "note": "The in-memory connection models acceptance/arrival of messages separately; inbox names are canonicalised."},
